@@ -83,6 +83,16 @@ def quiet():
     return contextlib.redirect_stdout(io.StringIO())
 
 
+def float_tok(x):
+    """an IEEE double exactly, in the form the driver's `showFloat` prints: mantissa:exponent"""
+    import math
+    x = float(x)
+    if math.isnan(x) or math.isinf(x):
+        return "nan"
+    m, e = math.frexp(x)
+    return f"{int(m * 2.0 ** 53)}:{e - 53}"
+
+
 # --------------------------------------------------------------------------
 # recording proxies
 # --------------------------------------------------------------------------
@@ -432,6 +442,23 @@ def gen_rp(rng, n, floats=None):
     return ts, kind, dim, tau, kw, variant
 
 
+def rank_hypothesis(ctx, reqs, impl, arr, exact_ok):
+    """hypothesis of remap_tie_order_independent / remap_pairs_are_sorted_pairs: what numpy's
+    `a.argsort(axis=1).argsort(axis=1)` returns for an array with ties is a `RankOf` (decided by the
+    driver on numpy's own rank array)"""
+    arr = np.asarray(arr)
+    if not exact_ok or not np.isfinite(np.asarray(arr, dtype=float)).all() or not has_ties(arr):
+        return
+    rk = arr.argsort(axis=1).argsort(axis=1)
+    for i in range(arr.shape[0]):
+        if len(set(arr[i].tolist())) < arr.shape[1]:
+            reqs.append(f"rankof {enc_vec(arr[i])} {enc_ivec(rk[i])}")
+            impl.append("1")
+            reqs.append(f"rankof_model {enc_vec(arr[i])}")      # the model's own stable ranks
+            impl.append("1")
+            ctx.count("gen:rank-array-of-tied-row-is-RankOf")
+
+
 def has_ties(a):
     a = np.asarray(a)
     return any(len(set(row.tolist())) < len(row) for row in a)
@@ -571,6 +598,7 @@ def run(ctx):
     ncase = 800 if quick else 5000
     struct_bad, perm_bad = [], []
     sreqs, simpl = [], []        # float correspondence (refinement-loop spectrum)
+    mreqs, mimpl = [], []        # float correspondence (generated body of correlated_noise_surrogates)
     for c in range(ncase):
         kind, data, tags = gen_data(rng, nprng, quick,
                                     kinds=("int", "dyadic", "float", "float", "periodic",
@@ -618,9 +646,19 @@ def run(ctx):
                 patched(SM, random=rp_, np=np_), np.errstate(all="ignore"):
             for h in hist:
                 if h == "normalize":
+                    d0 = np.array(s.original_data, copy=True)
+                    m0, s0 = s.original_data.mean(axis=1), s.original_data.std(axis=1)
                     with quiet():
                         s.normalize_original_data()
                     ctx.count("gen:normalize-in-history")
+                    d1 = s.original_data
+                    if d1.dtype == d0.dtype and d0.dtype in (np.float64, np.float32) and \
+                            np.isfinite(d0).all() and np.isfinite(m0).all() and np.isfinite(s0).all() \
+                            and (d0.dtype == np.float64 or float(np.abs(d0[d0 != 0]).min(initial=1.0)) > 2.0 ** -100):
+                        w = "64" if d0.dtype == np.float64 else "32"
+                        reqs.append(f"normalize{w} {enc_vec(m0)} {enc_vec(s0)} {enc_mat(d0)}")
+                        impl.append(";".join(",".join(float_tok(v) for v in r) or "-" for r in d1))
+                        ctx.count(f"gen:normalize-loop-float{w}-bit-exact")
                     continue
                 before = len(np_.fft.rfft_out)
                 s.correlated_noise_surrogates()
@@ -651,6 +689,9 @@ def run(ctx):
                     freqs.append(f"fourier {mode} {enc_vec(cache[i].real)} {enc_vec(cache[i].imag)} "
                                  f"{enc_mat(ph)}")
                     fimpl.append(([np_.fft.irfft_in[k][i] for k in calls], tol_for(cache.real)))
+                    # the method body as regenerated from the source, executed statement by statement
+                    mreqs.append(f"fmethod {enc_vec(cache[i].real)} {enc_vec(cache[i].imag)} {enc_mat(ph)}")
+                    mimpl.append(([np_.fft.irfft_in[k][i] for k in calls], tol_for(cache.real)))
         ctx.case(("fourier", data.tobytes().hex(), seed, tuple(hist)), nontriv)
         ctx.count("gen:correlated_noise", ncalls)
         # ---- AAFT / refined AAFT -------------------------------------------
@@ -672,6 +713,8 @@ def run(ctx):
                     struct_bad.append(f"AAFT_surrogates: {len(outs)} irfft calls, "
                                       f"{len(np_.fft.rfft_in)} rfft calls")
                 else:
+                    rank_hypothesis(ctx, reqs, impl, outs[0], exact_ok)
+                    rank_hypothesis(ctx, reqs, impl, np.asarray(data), exact_ok)
                     if not tie and exact_ok:
                         reqs.append(f"aaft {enc_mat(data)} {enc_mat(outs[0])}")
                         impl.append(enc_mat(R))
@@ -704,6 +747,7 @@ def run(ctx):
                     struct_bad.append(f"refined_AAFT_surrogates: {len(outs)} irfft / {len(rout)} rfft "
                                       f"calls for n_iterations={nit}")
                 else:
+                    rank_hypothesis(ctx, reqs, impl, outs[-1], exact_ok)
                     if exact_ok and all(np.isfinite(o).all() for o in outs) and \
                             any(has_ties(o) for o in outs):
                         # the result depends on the tie order only through the last ranked array
@@ -1044,6 +1088,16 @@ def run(ctx):
         ctx.count("history:" + ("with" if "n" in names else "without") + "-normalize")
         ctx.count(f"history:len={len(names)}")
 
+    # ======================================================================
+    # G: the Fourier surrogates of the pure-Python coupling class (full FFT, explicit Hermitian
+    #    mirror, phases multiplied into the memoised array) — model `cnsCalls`
+    # ======================================================================
+    creqs, cimpl = coupling_correspondence(ctx, rng, nprng, quick)
+    facts = common.driver("C15", ["cnsfacts"])[0] if HAVE_DRIVER else "1 true"
+    ctx.obligation("the model of CouplingAnalysisPurePython.correlatedNoiseSurrogates mirrors along the "
+                   f"frequency axis as the source does (Generated/StructC15.lean: axis, in-place = {facts})",
+                   "translator", facts.split()[0] == "1",
+                   "numpy.flipud reverses the node axis: the spectrum is no longer Hermitian")
     ctx.obligation("call structure: one memoised rfft and one irfft per correlated_noise_surrogates "
                    "call, one irfft per AAFT call and per refinement step", "correspondence",
                    not struct_bad, "\n".join(struct_bad[:5]))
@@ -1105,6 +1159,18 @@ def run(ctx):
     ctx.obligation(f"correspondence: phase multiplication history (mode={mode}) == spectra handed to "
                    f"irfft ({len(freqs)} rows, relative tolerance {TOL})", "correspondence", not fbad,
                    "\n".join(f"{freqs[i][:300]} :: {w}" for i, w in fbad[:5]))
+    ctx.extra["requests_compared"] += len(mreqs)
+    mbad = float_compare(mreqs, mimpl)
+    ctx.obligation(f"correspondence: the body of correlated_noise_surrogates as regenerated from the "
+                   f"source (Generated/StructC15.lean), executed statement by statement == spectra "
+                   f"handed to irfft ({len(mreqs)} rows, relative tolerance {TOL})", "correspondence",
+                   not mbad, "\n".join(f"{mreqs[i][:300]} :: {w}" for i, w in mbad[:5]))
+    ctx.extra["requests_compared"] += len(creqs)
+    cbad = float_compare(creqs, cimpl)
+    ctx.obligation(f"correspondence: cnsCalls (full FFT, slices of the source, in-place history) == arrays "
+                   f"CouplingAnalysisPurePython.correlatedNoiseSurrogates hands to ifft ({len(creqs)} rows, "
+                   f"relative tolerance {TOL})", "correspondence", not cbad,
+                   "\n".join(f"{creqs[i][:300]} :: {w}" for i, w in cbad[:5]))
     sbad = float_compare(sreqs, simpl)
     ctx.obligation(f"correspondence: |cached FFT| * exp(1j*angle(rfft(R))) of the model == spectra the "
                    f"refinement loop hands to irfft ({len(sreqs)} rows, relative tolerance {TOL})",
@@ -1116,6 +1182,172 @@ def run(ctx):
     # oracle on the unpatched code
     # ======================================================================
     oracle(ctx, Surrogates, RecurrencePlot, rng, nprng, quick)
+    coupling_oracle(ctx, rng, nprng, quick)
+
+
+class CouplingNumpyProxy:
+    """stands in for the module global `numpy` of funcnet/coupling_analysis_pure_python.py: records
+    the full FFT, the phases and the arrays handed to / returned by ifft"""
+
+    class _Fft:
+        def __init__(self):
+            self.fft_out, self.ifft_in, self.ifft_out = [], [], []
+
+        def fft(self, a, *args, **kw):
+            r = np.fft.fft(a, *args, **kw)
+            self.fft_out.append(r.copy())
+            return r
+
+        def ifft(self, a, *args, **kw):
+            self.ifft_in.append(np.array(a, copy=True))
+            r = np.fft.ifft(a, *args, **kw)
+            self.ifft_out.append(r.copy())
+            return r
+
+        def __getattr__(self, k):
+            return getattr(np.fft, k)
+
+    class _Random:
+        def __init__(self, seed):
+            self.rs, self.phases = np.random.RandomState(seed), []
+
+        def uniform(self, low=0.0, high=1.0, size=None):
+            ph = self.rs.uniform(low=low, high=high, size=size)
+            self.phases.append(np.array(ph, copy=True))
+            return ph
+
+        def shuffle(self, x):
+            return self.rs.shuffle(x)
+
+        def __getattr__(self, k):
+            return getattr(np.random, k)
+
+    def __init__(self, seed):
+        self.fft, self.random = self._Fft(), self._Random(seed)
+
+    def __getattr__(self, k):
+        return getattr(np, k)
+
+
+def gen_coupling_data(rng, nprng, quick):
+    """(time, nodes) array for the coupling class: odd and even lengths from 1, 1-4 nodes"""
+    n = rng.choice([1, 2, 3, 4, 5, 6, 7, 8, 9, 12, 15, 16, 21, 32, 33])
+    N = rng.choice([1, 2, 2, 3, 4])
+    kind = rng.choice(["float", "float", "int", "constant-node", "scaled"])
+    if kind == "int":
+        d = np.array([[rng.randrange(-3, 4) for _ in range(N)] for _ in range(n)], dtype=float)
+    else:
+        d = nprng.randn(n, N)
+        if kind == "constant-node":
+            d[:, 0] = 1.5
+        if kind == "scaled":
+            d = d * 2.0 ** rng.choice([-300, -30, 30, 300])
+    return kind, d.reshape(n, N)
+
+
+def coupling_correspondence(ctx, rng, nprng, quick):
+    import pyunicorn.funcnet.coupling_analysis_pure_python as CM
+    creqs, cimpl = [], []
+    for c in range(150 if quick else 1200):
+        kind, d = gen_coupling_data(rng, nprng, quick)
+        n, N = d.shape
+        seed = rng.randrange(2 ** 31)
+        px = CouplingNumpyProxy(seed)
+        rep = {"dataarray(time,nodes)": d.tolist(), "numpy_RandomState_seed": seed}
+        calls = [rng.choice(["direct", "direct", "cc", "mi"]) for _ in range(rng.choice([1, 2, 3]))]
+        if n < 4:
+            calls = ["direct"] * len(calls)      # the statistics of the wrappers need a few samples
+        try:
+            with quiet(), np.errstate(all="ignore"), patched(CM, numpy=px):
+                ca = CM.CouplingAnalysisPurePython(d.copy(), silence_level=3)
+                for how in calls:
+                    before = len(px.fft.ifft_in)
+                    try:
+                        if how == "direct":
+                            ca.correlatedNoiseSurrogates(ca.dataarray.copy())
+                        elif how == "cc":
+                            ca.shuffled_surrogate_for_cc(fourier=True, tau_max=rng.choice([0, 1]))
+                        else:
+                            ca.shuffled_surrogate_for_mi(fourier=True, bins=rng.choice([2, 4]),
+                                                         tau_max=rng.choice([0, 1]))
+                    except Exception:  # noqa
+                        if how == "direct" or len(px.fft.ifft_in) == before:
+                            raise
+                        # the surrogate was generated; the statistic computed from it is C10's
+                        ctx.count("coupling:wrapper-statistic-raised-after-the-surrogate")
+        except Exception as e:  # noqa
+            ctx.fail({"kind": "raises", "class": "CouplingAnalysisPurePython",
+                      "method": "correlatedNoiseSurrogates", "error": type(e).__name__},
+                     f"Fourier surrogates of the coupling class ({calls}) raised {type(e).__name__}: {e}",
+                     dict(rep, calls=calls))
+            continue
+        f = px.fft
+        if len(f.fft_out) != 1 or len(f.ifft_in) != len(calls) or len(px.random.phases) != len(calls):
+            ctx.fail({"kind": "call-structure", "class": "CouplingAnalysisPurePython"},
+                     f"{len(f.fft_out)} fft / {len(f.ifft_in)} ifft / {len(px.random.phases)} uniform calls "
+                     f"for {len(calls)} surrogate calls", dict(rep, calls=calls))
+            continue
+        cache = f.fft_out[0]
+        if np.isfinite(cache).all():
+            for i in range(N):
+                ph = [px.random.phases[k][i] for k in range(len(calls))]
+                creqs.append(f"cns {enc_vec(cache[i].real)} {enc_vec(cache[i].imag)} {enc_mat(ph)}")
+                cimpl.append(([f.ifft_in[k][i] for k in range(len(calls))], TOL))
+        ctx.case(("coupling-fourier", d.tobytes().hex(), seed, tuple(calls)), n >= 4)
+        ctx.count("gen:coupling-class-fourier", len(calls))
+        for how in calls:
+            ctx.count(f"coupling:{how}")
+        ctx.count("coupling-len:" + ("1" if n == 1 else "2" if n == 2 else "odd" if n % 2 else "even"))
+    return creqs, cimpl
+
+
+def coupling_oracle(ctx, rng, nprng, quick):
+    """unpatched code: every Fourier surrogate of the coupling class has the amplitude spectrum of
+    the data at **every** bin (DC and Nyquist are not touched), is real, and repeated calls on one
+    object (the memoised FFT is multiplied in place) do not degrade that"""
+    from pyunicorn.funcnet.coupling_analysis_pure_python import CouplingAnalysisPurePython as CA
+    for c in range(150 if quick else 1200):
+        kind, d = gen_coupling_data(rng, nprng, quick)
+        n, N = d.shape
+        seed = rng.randrange(2 ** 31)
+        np.random.seed(seed)
+        rep = {"dataarray(time,nodes)": d.tolist(), "numpy_random_seed": seed}
+        ctx.count("oracle:coupling-fourier")
+        try:
+            with quiet(), np.errstate(all="ignore"):
+                ca = CA(d.copy(), silence_level=3)
+                data = ca.dataarray.copy()
+                for call in range(rng.choice([1, 2, 4])):
+                    out = ca.correlatedNoiseSurrogates(ca.dataarray.copy())
+                    if np.iscomplexobj(out):
+                        ctx.fail({"kind": "complex-output", "class": "CouplingAnalysisPurePython"},
+                                 "correlatedNoiseSurrogates returned a complex array", dict(rep, call=call))
+                        break
+                    if not check_spectrum(ctx, "CouplingAnalysisPurePython.correlatedNoiseSurrogates",
+                                          out, data, dict(rep, call=call), bins="all"):
+                        break
+                    if not np.array_equal(ca.dataarray, data):
+                        ctx.fail({"kind": "original-data-changed", "class": "CouplingAnalysisPurePython"},
+                                 "correlatedNoiseSurrogates changed dataarray", dict(rep, call=call))
+                        break
+        except Exception as e:  # noqa
+            ctx.fail({"kind": "raises", "class": "CouplingAnalysisPurePython",
+                      "method": "correlatedNoiseSurrogates", "error": type(e).__name__},
+                     f"correlatedNoiseSurrogates raised {type(e).__name__}: {e}", rep)
+        ctx.case(("oracle-coupling", d.tobytes().hex(), seed), n >= 4)
+    # the memoised FFT is keyed on nothing: a second array on the same object gets the surrogates
+    # of the first (known finding, the public method's argument is expected to be `dataarray`)
+    with quiet(), np.errstate(all="ignore"):
+        a, b = nprng.randn(8, 2), nprng.randn(8, 2)
+        ca = CA(a.copy(), silence_level=3)
+        ca.correlatedNoiseSurrogates(ca.dataarray.copy())
+        out = ca.correlatedNoiseSurrogates(b.T.copy())
+    if not np.all(np.abs(amp(out) - amp(b.T)) <= TOL * amp(b.T).max()):
+        ctx.fail({"kind": "stale-fft-cache", "class": "CouplingAnalysisPurePython",
+                  "method": "correlatedNoiseSurrogates", "argument": "an array other than the one of the first call"},
+                 "correlatedNoiseSurrogates(original) memoises the FFT of the first array it is given: "
+                 "a different `original` on the same object gets surrogates of the first one",
+                 {"first": a.T.tolist(), "second": b.T.tolist()})
 
 
 def float_compare(requests, impl):
@@ -1243,10 +1475,73 @@ def oracle(ctx, Surrogates, RecurrencePlot, rng, nprng, quick):
         hist = []
         for call in range(rng.choice([1, 2, 3, 4])):
             g = rng.choice(["white", "fourier", "aaft", "refined", "refined_s", "twin", "twin",
-                            "normalize"])
-            if g == "normalize" and data.dtype.kind != "f":
+                            "normalize", "significance", "distribution"])
+            if g in ("normalize", "significance", "distribution") and data.dtype.kind != "f":
                 g = "white"          # in-place normalisation is defined for float arrays
             hist.append(g)
+            if g == "distribution":
+                # public wrapper that normalises implicitly (once) before it evaluates the statistic
+                try:
+                    with quiet(), np.errstate(all="ignore"):
+                        s.original_distribution(Surrogates.test_pearson_correlation, n_bins=5)
+                except Exception:  # noqa
+                    ctx.count("oracle:distribution:statistic-raised")
+                pristine = s.original_data.copy()
+                ctx.count("oracle:original_distribution")
+                continue
+            if g == "significance":
+                # public wrapper that normalises, then calls the generator `realizations` times on
+                # this object: every surrogate it obtains must keep the guarantee w.r.t. the data
+                # the object holds at that moment
+                gname = rng.choice(["white", "fourier", "aaft", "refined", "twin"])
+                got = []
+
+                def sfun(obj, gname=gname, got=got):
+                    if gname == "white":
+                        o = obj.white_noise_surrogates()
+                    elif gname == "fourier":
+                        o = obj.correlated_noise_surrogates()
+                    elif gname == "aaft":
+                        o = obj.AAFT_surrogates()
+                    elif gname == "refined":
+                        o = obj.refined_AAFT_surrogates(2)
+                    else:
+                        o = obj.twin_surrogates(1, 0, 0.5, 1)
+                    got.append((np.array(o, copy=True), np.array(obj.original_data, copy=True)))
+                    return o
+                rep = {"data": pristine.tolist(), "dtype": str(data.dtype), "layout": tags,
+                       "numpy_and_random_seed": seed, "history": list(hist), "generator": gname}
+                try:
+                    with quiet(), np.errstate(all="ignore"):
+                        s.test_threshold_significance(sfun, Surrogates.test_pearson_correlation,
+                                                      realizations=rng.choice([1, 2, 3]), n_bins=5)
+                except Exception as e:  # noqa
+                    if not got:
+                        ctx.fail({"kind": "raises", "method": "test_threshold_significance:" + gname,
+                                  "error": type(e).__name__},
+                                 f"test_threshold_significance({gname}) raised {type(e).__name__}: {e}", rep)
+                    else:
+                        ctx.count("oracle:significance:statistic-raised")
+                pristine = s.original_data.copy()
+                ctx.count(f"oracle:test_threshold_significance:{gname}", len(got))
+                for o, cur in got:
+                    if not np.isfinite(cur).all():
+                        continue
+                    if not np.array_equal(cur, pristine):
+                        ctx.fail({"kind": "original-data-changed", "method": "test_threshold_significance"},
+                                 "the data changed between the realisations", rep)
+                        break
+                    if gname in ("white", "aaft", "refined"):
+                        ok = check_perm(ctx, f"test_threshold_significance:{gname}", o, cur, rep)
+                    elif gname == "fourier":
+                        ok = check_spectrum(ctx, "test_threshold_significance:correlated_noise_surrogates",
+                                            o, cur, rep)
+                    else:
+                        check_twin_surrogates(ctx, "Surrogates", o, s.twins(0.5, 1), cur, 1, 0, 0.5, 1, rep)
+                        ok = True
+                    if not ok:
+                        break
+                continue
             if g == "normalize":
                 # the documented mutator: from now on the guarantees refer to the normalised data
                 with quiet(), np.errstate(all="ignore"):
@@ -1277,16 +1572,23 @@ def oracle(ctx, Surrogates, RecurrencePlot, rng, nprng, quick):
                         nit = rng.choice([0, 1, 1, 2, 5])
                         rep["n_iterations"] = nit
                         rep["output"] = "both"
+                        form = rng.choice(["both", "both", "true_spectrum", "anything-else"])
+                        rep["output"] = form
                         try:
-                            R, sp = s.refined_AAFT_surrogates(nit, output="both")
+                            if form == "true_spectrum":
+                                sp = s.refined_AAFT_surrogates(nit, output=form)
+                                R = None
+                            else:
+                                R, sp = s.refined_AAFT_surrogates(nit, output=form)
                         except UnboundLocalError as e:
                             ctx.fail({"kind": "raises", "method": "refined_AAFT_surrogates",
                                       "n_iterations": nit, "error": "UnboundLocalError"},
                                      f"refined_AAFT_surrogates(n_iterations={nit}, output='both') "
                                      f"raised UnboundLocalError: {e}", rep)
                             continue
-                        check_perm(ctx, "refined_AAFT_surrogates", R, pristine, rep)
-                        degenerate = bool((amp(R)[:, 1:] == 0).any()) or n == 1
+                        if R is not None:
+                            check_perm(ctx, "refined_AAFT_surrogates", R, pristine, rep)
+                        degenerate = n == 1 or (R is not None and bool((amp(R)[:, 1:] == 0).any()))
                         if check_spectrum(ctx, "refined_AAFT_surrogates:true_spectrum"
                                           + (":zero-coefficient" if degenerate else ""),
                                           sp, pristine, rep, bins="all"):
